@@ -8,6 +8,15 @@
 // (S events) and every block handed to the container library (W events) are
 // observed through the shim (harness/shims/diskwriter/rec.go); at close the
 // files are parsed back with ebml-go.
+//
+// Shared time origin (C20): the sync cases (caseCfg.sync) are audio+video
+// histories in which diskTrack.adjustOrigin runs with a non-zero offset on the
+// Write path (histogram keys adjustOrigin:nonzero:*); a few cases per run are
+// delivered in real time (op at: the harness sleeps until the packet's send
+// time and reports its own clock), because without sender reports for both
+// tracks only the arrival times relate the audio clock to the video clock.
+// H264 keyframes come in pion's layout and in five hand-built legal ones
+// (h264Key).
 package main
 
 import (
@@ -20,6 +29,7 @@ import (
 	"runtime/debug"
 	"sort"
 	"strings"
+	"time"
 
 	"github.com/at-wat/ebml-go"
 	"github.com/at-wat/ebml-go/webm"
@@ -49,6 +59,7 @@ type eng struct {
 	ncase int
 	rec   *diskwriter.VerifRec
 	sent  []map[int][]byte
+	t0    time.Time // when the recorder of the case was created (op at)
 }
 
 func (e *eng) Reset() {
@@ -134,6 +145,7 @@ func (e *eng) Exec(op []string) string {
 			return "err"
 		}
 		e.rec = rec
+		e.t0 = time.Now()
 		e.sent = make([]map[int][]byte, len(specs))
 		for i := range e.sent {
 			e.sent[i] = map[int][]byte{}
@@ -178,6 +190,18 @@ func (e *eng) Exec(op []string) string {
 			return "norec"
 		}
 		return e.rec.Write(a(1), common.Unhex(op[2]))
+	case "at":
+		// at ms: real-time delivery.  Waits until ms milliseconds after the creation of the recorder and
+		// reports the harness's own clock (us since then) on entry and on return: the ops between two
+		// at ops happen between the return of the first and the entry of the second.
+		if e.rec == nil {
+			return "norec"
+		}
+		entry := time.Since(e.t0)
+		if d := time.Duration(a(1))*time.Millisecond - entry; d > 0 {
+			time.Sleep(d)
+		}
+		return fmt.Sprintf("ok %d %d", entry.Microseconds(), time.Since(e.t0).Microseconds())
 	case "sr":
 		if e.rec == nil {
 			return "norec"
@@ -346,6 +370,12 @@ type source struct {
 	padPct int
 	big    bool
 	tsOff  uint32 // added to every timestamp (timestamp torture)
+	// forceLen > 0: length of the next frame (sync cases: frames of a chosen number of packets)
+	forceLen int
+	// layout of H264 keyframes: 0 = pion's payloader (STAP-A[SPS,PPS] + IDR, what browsers send),
+	// 1..5 = the hand-built legal layouts of h264Key, -1 = a random one for every keyframe
+	kfLayout int
+	t        *common.Trace
 }
 
 func randBytes(r *common.Rng, n int, nonzero bool) []byte {
@@ -364,6 +394,9 @@ func randBytes(r *common.Rng, n int, nonzero bool) []byte {
 
 func (s *source) frameLen() int {
 	r := s.r
+	if s.forceLen > 0 && s.codec != "opus" {
+		return s.forceLen
+	}
 	if s.codec == "opus" {
 		return common.Pick(r, 1, 3, 8, 20, 60, 120, 200)
 	}
@@ -463,8 +496,17 @@ func (s *source) next(capt int, key bool) *frame {
 			b[0] = 0x60 | tp
 			return b
 		}
+		lay := 0
 		if key {
-			nalus = append(nalus, mk(7, r.Range(4, 20)), mk(8, r.Range(2, 8)), mk(5, n))
+			lay = s.kfLayout
+			if lay < 0 {
+				lay = r.Weighted(3, 2, 2, 2, 1, 2)
+			}
+			if s.t != nil {
+				s.t.Count(fmt.Sprintf("h264kf:layout%d", lay))
+			}
+			sps, pps, idr := mk(7, r.Range(4, 20)), mk(8, r.Range(2, 8)), mk(5, n)
+			nalus, payloads = h264Key(lay, s.mtu, sps, pps, idr, mk(9, 1))
 		} else {
 			switch r.Weighted(6, 2, 2) {
 			case 0:
@@ -479,7 +521,9 @@ func (s *source) next(capt int, key bool) *frame {
 			f.data = append(f.data, 0, 0, 0, 1)
 			f.data = append(f.data, nl...)
 		}
-		payloads = s.h264.Payload(uint16(s.mtu), f.data)
+		if payloads == nil {
+			payloads = s.h264.Payload(uint16(s.mtu), f.data)
+		}
 	}
 	if len(payloads) == 0 {
 		panic("payloader produced nothing")
@@ -570,6 +614,75 @@ func (s *source) next(capt int, key bool) *frame {
 	return f
 }
 
+// h264Key lays a keyframe access unit (SPS, PPS, IDR) out in RTP payloads.  Layout 0 leaves the
+// packetisation to pion's payloader (one STAP-A with SPS and PPS, then the IDR slice: what
+// browsers send); the others are legal (RFC 6184) but less usual:
+//
+//	1  STAP-A[SPS] | PPS | IDR            the SPS is the only NAL unit of its aggregate
+//	2  STAP-A[AUD,SPS] | PPS | IDR        the SPS is the last NAL unit of its aggregate
+//	3  STAP-A[PPS,SPS] | IDR              idem
+//	4  STAP-A[SPS,PPS,IDR]                everything in one aggregate (small IDR; else as 5)
+//	5  SPS | PPS | IDR                    single NAL unit packets
+//
+// where a NAL unit that does not fit the MTU is sent as FU-A fragments.  It returns the NAL units
+// of the recorded frame, in order, and the payloads (nil: use the payloader).
+func h264Key(lay, mtu int, sps, pps, idr, aud []byte) (nalus [][]byte, payloads [][]byte) {
+	stapA := func(ns ...[]byte) []byte {
+		b := []byte{0x78}
+		for _, n := range ns {
+			b = append(b, byte(len(n)>>8), byte(len(n)))
+			b = append(b, n...)
+		}
+		return b
+	}
+	single := func(n []byte) [][]byte {
+		if len(n) <= mtu || len(n) < 2 {
+			return [][]byte{n}
+		}
+		var out [][]byte
+		max := mtu - 2
+		body := n[1:]
+		for i := 0; i < len(body); i += max {
+			end := i + max
+			if end > len(body) {
+				end = len(body)
+			}
+			fu := n[0] & 0x1f
+			if i == 0 {
+				fu |= 0x80
+			}
+			if end == len(body) {
+				fu |= 0x40
+			}
+			out = append(out, append([]byte{n[0]&0xe0 | 28, fu}, body[i:end]...))
+		}
+		return out
+	}
+	if lay == 4 && 1+2+len(sps)+2+len(pps)+2+len(idr) > mtu {
+		lay = 5
+	}
+	switch lay {
+	case 1:
+		nalus = [][]byte{sps, pps, idr}
+		payloads = append([][]byte{stapA(sps)}, append(single(pps), single(idr)...)...)
+	case 2:
+		nalus = [][]byte{aud, sps, pps, idr}
+		payloads = append([][]byte{stapA(aud, sps)}, append(single(pps), single(idr)...)...)
+	case 3:
+		nalus = [][]byte{pps, sps, idr}
+		payloads = append([][]byte{stapA(pps, sps)}, single(idr)...)
+	case 4:
+		nalus = [][]byte{sps, pps, idr}
+		payloads = [][]byte{stapA(sps, pps, idr)}
+	case 5:
+		nalus = [][]byte{sps, pps, idr}
+		payloads = append(single(sps), append(single(pps), single(idr)...)...)
+	default:
+		nalus = [][]byte{sps, pps, idr}
+	}
+	return nalus, payloads
+}
+
 func ntpOf(ntp0 uint64, ms int) uint64 {
 	sec := uint64(ms / 1000)
 	frac := (uint64(ms%1000) << 32) / 1000
@@ -586,8 +699,20 @@ type caseCfg struct {
 	burst                             int // probability (per mille) of a burst
 	burstMax                          int
 	cacheA, cacheV                    int
-	srMode                            int // 0 none, 1 before start, 2 random, 3 late only
+	srMode                            int // 0 none, 1 before start, 2 random, 3 late only, 4 audio only, 5/6 audio/video only, before start, 7 audio before start, video at srMidAt
+	srMidAt                           int
 	vlat                              int // video pipeline latency, ms
+	alat                              int // audio pipeline latency, ms
+	// sync cases (audio and video; adjustOrigin runs with a non-zero offset on the Write path):
+	// 1 outage: the first keyframe loses packets the cache cannot supply and 512 or more seqnos are lost after it;
+	// 2 stall: the first keyframe loses one packet, the sample builder waits until its ring is full;
+	// 3 srmid: the first sender report of the video track arrives between the first and the last packet of
+	//   the first keyframe, the audio track (larger latency) has had its report
+	sync int
+	// the packets are delivered in real time (op at before every delivery): without sender reports for
+	// both tracks only the arrival times relate the audio clock to the video clock
+	paced    bool
+	longTail bool
 	dimChange                         bool
 	preKey                            int // non-key video frames before the first keyframe
 	closeKind                         int
@@ -628,10 +753,45 @@ func pickTs0(r *common.Rng) uint32 {
 
 func streamCase(t *common.Trace, e common.Engine, r *common.Rng, c *caseCfg, label string) {
 	t.Count("kind:" + label)
-	do := func(op string) string { return common.Do(t, e, op) }
+	t.Comment("kind " + label)
+	// the origins of the tracks as the recorder reports them (st=…;origins;…): when a file is created by a
+	// Write (fc=I…) and origins that were valid before have other values after it, adjustOrigin has run
+	// with a non-zero offset
+	prevOrg := ""
+	do := func(op string) string {
+		res := common.Do(t, e, op)
+		i := strings.Index(res, " st=")
+		if i < 0 {
+			return res
+		}
+		f := strings.Split(strings.Fields(res[i+4:])[0], ";")
+		if len(f) < 2 {
+			return res
+		}
+		if (strings.HasPrefix(op, "w ") || strings.HasPrefix(op, "close ")) && strings.Contains(res, " fc=I") && prevOrg != "" {
+			where := strings.Fields(op)[0]
+			a, b := strings.Split(prevOrg, "/"), strings.Split(f[1], "/")
+			moved := 0
+			for k := range a {
+				if k < len(b) && a[k] != "-" && b[k] != "-" && a[k] != b[k] {
+					moved++
+				}
+			}
+			if moved > 0 && moved == len(a) {
+				t.Count(fmt.Sprintf("adjustOrigin:nonzero:%s:all-%d-tracks", where, moved))
+			} else if moved > 0 {
+				t.Count(fmt.Sprintf("adjustOrigin:nonzero:%s:one-of-two", where))
+			}
+		}
+		prevOrg = f[1]
+		return res
+	}
 	do("new " + specString(c))
 	var srcs []*source
 	mtu := common.Pick(r, 40, 60, 100, 100, 200, 400, 1200)
+	if c.sync == 1 || c.sync == 2 {
+		mtu = common.Pick(r, 40, 60, 100)
+	}
 	if c.audio {
 		s := &source{r: r, trk: 0, codec: "opus", rate: 48000, mtu: 1200, padPct: c.padPct}
 		srcs = append(srcs, s)
@@ -642,6 +802,8 @@ func streamCase(t *common.Trace, e common.Engine, r *common.Rng, c *caseCfg, lab
 		s.vp8 = &codecs.VP8Payloader{EnablePictureID: r.Bool()}
 		s.vp9 = &codecs.VP9Payloader{FlexibleMode: r.Intn(3) == 0, InitialPictureIDFn: func() uint16 { return uint16(r.Intn(0x8000)) }}
 		s.h264 = &codecs.H264Payloader{}
+		s.kfLayout = common.Pick(r, 0, 0, -1, -1, 1, 2, 3)
+		s.t = t
 		srcs = append(srcs, s)
 	}
 	for _, s := range srcs {
@@ -660,7 +822,16 @@ func streamCase(t *common.Trace, e common.Engine, r *common.Rng, c *caseCfg, lab
 	}
 	// frames, by capture time
 	var frames []*frame
+	var vframes []*frame
+	forced := map[*packet]int{}
+	if c.sync != 0 {
+		vframes = syncFrames(t, r, c, srcs[len(srcs)-1], forced)
+	}
 	for _, s := range srcs {
+		if c.sync != 0 && s.codec != "opus" {
+			frames = append(frames, vframes...)
+			continue
+		}
 		step, jit := 20, 0
 		if s.codec != "opus" {
 			step, jit = 33, 8
@@ -700,6 +871,8 @@ func streamCase(t *common.Trace, e common.Engine, r *common.Rng, c *caseCfg, lab
 			f.send = capt
 			if s.codec != "opus" {
 				f.send += c.vlat
+			} else {
+				f.send += c.alat
 			}
 			frames = append(frames, f)
 			capt += step
@@ -714,8 +887,15 @@ func streamCase(t *common.Trace, e common.Engine, r *common.Rng, c *caseCfg, lab
 	sort.SliceStable(frames, func(i, j int) bool { return frames[i].send < frames[j].send })
 	var pkts []*packet
 	for _, f := range frames {
+		for _, p := range f.pkts {
+			if p.send == 0 {
+				p.send = f.send
+			}
+		}
 		pkts = append(pkts, f.pkts...)
 	}
+	// the packets of a large frame may be paced (sync cases): other packets are sent in between
+	sort.SliceStable(pkts, func(i, j int) bool { return pkts[i].send < pkts[j].send })
 	// sender reports
 	type srev struct {
 		at  int
@@ -740,17 +920,37 @@ func streamCase(t *common.Trace, e common.Engine, r *common.Rng, c *caseCfg, lab
 			if s.trk == 0 {
 				srs = append(srs, srev{r.Intn(endT + 1), s.trk})
 			}
+		case 5, 6:
+			if (s.codec == "opus") == (c.srMode == 5) {
+				srs = append(srs, srev{-1, s.trk})
+			}
+		case 7:
+			if s.codec == "opus" {
+				srs = append(srs, srev{-1, s.trk})
+			} else {
+				srs = append(srs, srev{c.srMidAt, s.trk})
+			}
 		}
 	}
 	sort.SliceStable(srs, func(i, j int) bool { return srs[i].at < srs[j].at })
+	now := 0
+	pace := func() {
+		if c.paced {
+			do(fmt.Sprintf("at %d", now))
+		}
+	}
 	doSR := func(upTo int) {
 		for len(srs) > 0 && srs[0].at <= upTo {
 			x := srs[0]
 			srs = srs[1:]
+			pace()
 			s := srcs[x.trk]
 			capt := x.at
 			if capt < 0 {
 				capt = 0
+			}
+			if c.sync != 0 {
+				capt += 1000 // never the NTP time 0, which the recorder takes for "no report yet"
 			}
 			do(fmt.Sprintf("sr %d %d %d", x.trk, ntpOf(ntp0, capt), s.ts0+uint32(capt*(s.rate/1000))))
 			t.Count("sr")
@@ -772,6 +972,7 @@ func streamCase(t *common.Trace, e common.Engine, r *common.Rng, c *caseCfg, lab
 				if x.up {
 					do(x.p.op())
 				}
+				pace()
 				do(fmt.Sprintf("w %d %d", x.p.f.trk, x.p.seq))
 			} else {
 				k++
@@ -780,7 +981,8 @@ func streamCase(t *common.Trace, e common.Engine, r *common.Rng, c *caseCfg, lab
 	}
 	burstLeft, burstKind := 0, 0
 	for i, p := range pkts {
-		doSR(p.f.send)
+		now = p.send
+		doSR(p.send)
 		flushPend(i, false)
 		if burstLeft == 0 && c.burst > 0 && r.Intn(1000) < c.burst {
 			burstLeft = r.Range(2, c.burstMax)
@@ -791,7 +993,9 @@ func streamCase(t *common.Trace, e common.Engine, r *common.Rng, c *caseCfg, lab
 			}
 		}
 		fate := 0
-		if burstLeft > 0 {
+		if ff, ok := forced[p]; ok {
+			fate = ff
+		} else if burstLeft > 0 {
 			burstLeft--
 			fate = 1 + burstKind
 		} else {
@@ -808,6 +1012,9 @@ func streamCase(t *common.Trace, e common.Engine, r *common.Rng, c *caseCfg, lab
 			case x < c.pSkip+c.pLost+c.pDelay+c.pLate+c.pDup:
 				fate = 5
 			}
+		}
+		if fate == 0 || fate == 5 {
+			pace()
 		}
 		switch fate {
 		case 0:
@@ -838,7 +1045,121 @@ func streamCase(t *common.Trace, e common.Engine, r *common.Rng, c *caseCfg, lab
 	}
 	flushPend(0, true)
 	doSR(1 << 30)
+	pace()
 	do(fmt.Sprintf("close %d", c.closeKind))
+}
+
+// fit produces a non-key frame of exactly `want` packets (nil if it does not find one).
+func (s *source) fit(capt, want int) *frame {
+	seq, fid, v8, v9, h := s.seq, s.fid, *s.vp8, *s.vp9, *s.h264
+	l := want * (s.mtu - 12)
+	if l < 1 {
+		l = 1
+	}
+	defer func() { s.forceLen = 0 }()
+	for try := 0; try < 400; try++ {
+		s.forceLen = l
+		f := s.next(capt, false)
+		if len(f.pkts) == want {
+			return f
+		}
+		s.seq, s.fid, *s.vp8, *s.vp9, *s.h264 = seq, fid, v8, v9, h
+		if len(f.pkts) < want {
+			l += (s.mtu + 1) / 2
+		} else if l > 1 {
+			l--
+		}
+	}
+	return nil
+}
+
+// syncFrames produces the video frames of a sync case (see caseCfg.sync) and the forced fates of
+// their packets.
+func syncFrames(t *common.Trace, r *common.Rng, c *caseCfg, s *source, forced map[*packet]int) []*frame {
+	var frames []*frame
+	capt := r.Intn(40)
+	if c.sync == 3 {
+		capt += c.alat + 40 // the audio is flowing when the first keyframe arrives
+	}
+	push := func(f *frame) *frame {
+		f.send = f.capt + c.vlat
+		frames = append(frames, f)
+		capt += 33 + r.Intn(8)
+		return f
+	}
+	add := func(key bool, flen int) *frame {
+		s.forceLen = flen
+		f := s.next(capt, key)
+		s.forceLen = 0
+		return push(f)
+	}
+	// n packets in non-key frames of about per packets
+	fill := func(n, per int, lost bool) {
+		for n > 0 {
+			f := add(false, per*(s.mtu-12))
+			if lost {
+				for _, p := range f.pkts {
+					forced[p] = 2
+				}
+			}
+			n -= len(f.pkts)
+		}
+	}
+	for i := 0; i < c.preKey; i++ {
+		add(false, 0)
+	}
+	k1 := add(true, r.Range(2, 4)*s.mtu)
+	n1 := len(k1.pkts)
+	switch c.sync {
+	case 1:
+		if r.Bool() {
+			for _, p := range k1.pkts[1:] {
+				forced[p] = 2
+			}
+		} else {
+			forced[k1.pkts[r.Range(1, n1-1)]] = 2
+		}
+		// an outage of 512 seqnos or more that lasts about offset ms: frames of many packets, never sent
+		lost := common.Pick(r, 512, 513, 520, 600, 1000)
+		offset := common.Pick(r, 100, 250, 500, 900, 1300, 1300, 2200)
+		fill(lost, lost/(offset/37+1)+1, true)
+	case 2:
+		forced[k1.pkts[r.Range(1, n1-1)]] = 2
+		// every other packet is delivered: the sample builder waits for the missing packet until its
+		// ring (2*256+1 slots, the first packet of the keyframe in slot 0) is full; the last frame before
+		// the next keyframe ends in the last slot
+		per := common.Pick(r, 10, 15, 15, 20)
+		for cum := n1; cum < 513; {
+			k := per
+			if 513-cum <= per+3 {
+				k = 513 - cum
+			}
+			f := s.fit(capt, k)
+			if f == nil {
+				f = add(false, per*s.mtu)
+				t.Count("sync:unaligned")
+			} else {
+				push(f)
+			}
+			cum += len(f.pkts)
+		}
+	case 3:
+		// the keyframe is paced: 15 ms between packets
+		for i, p := range k1.pkts {
+			p.send = k1.send + 15*i
+		}
+		c.srMidAt = k1.send + 16 + r.Intn(14)
+	}
+	add(true, 0)
+	if c.sync == 1 && (c.longTail || r.Intn(10) < 7) {
+		// after a loss the sample builder holds every frame back until 256 newer packets have arrived
+		fill(256+r.Intn(20), common.Pick(r, 8, 12, 16), false)
+	}
+	for i := r.Range(6, 20); i > 0; i-- {
+		add(r.Intn(25) == 0, 0)
+	}
+	c.nframes = (capt + 40) / 33
+	return frames
 }
 
 func baseCfg(r *common.Rng) *caseCfg {
@@ -927,7 +1248,25 @@ func gen(t *common.Trace, e common.Engine, r *common.Rng, thorough bool) {
 		t.Case(fmt.Sprint(i))
 		e.Reset()
 		c := baseCfg(r)
-		switch r.Weighted(3, 4, 4, 3, 2, 2, 1) {
+		if i%250 == 3 {
+			// real-time delivery (one to three seconds per case): audio and video, mostly without sender
+			// reports for both tracks
+			c.audio, c.paced, c.longTail, c.dimChange = true, true, true, false
+			c.video = common.Pick(r, "vp8", "vp8", "vp9")
+			c.sync = common.Pick(r, 0, 1, 1, 2)
+			c.srMode = common.Pick(r, 0, 0, 0, 0, 5, 5, 6, 6, 1)
+			c.alat = common.Pick(r, 0, 0, 60)
+			c.nframes = r.Range(15, 30)
+			c.cacheA, c.cacheV = 256, 2048
+			if r.Intn(3) == 0 {
+				c.pDelay, c.maxDelay = 5, 5
+			}
+			streamCase(t, e, r, c, fmt.Sprintf("paced-sync%d", c.sync))
+			t.Flush()
+			e.Reset()
+			continue
+		}
+		switch r.Weighted(3, 4, 4, 3, 2, 2, 1, 2) {
 		case 0: // every packet delivered in order
 			streamCase(t, e, r, c, "inorder")
 		case 1: // loss between server and recorder only: everything is recoverable
@@ -952,6 +1291,22 @@ func gen(t *common.Trace, e common.Engine, r *common.Rng, thorough bool) {
 			streamCase(t, e, r, c, "longgap")
 		case 5:
 			originCase(t, e, r)
+		case 7: // audio and video, adjustOrigin with a non-zero offset on the Write path
+			// (not H264: the first packet of an H264 keyframe is a sample of its own for the sample builder,
+			// the file is always created at the first keyframe packet)
+			c.audio = true
+			c.video = common.Pick(r, "vp8", "vp8", "vp9")
+			c.sync = r.Weighted(4, 2, 4) + 1
+			c.srMode = common.Pick(r, 1, 1, 1, 1, 1, 1, 0, 5, 6, 3, 3)
+			c.cacheA, c.cacheV = 256, 2048
+			if c.sync == 3 {
+				c.srMode = 7
+				c.alat = c.vlat + common.Pick(r, 40, 100, 300)
+			}
+			if r.Intn(5) == 0 {
+				c.pSkip = 5
+			}
+			streamCase(t, e, r, c, fmt.Sprintf("sync%d", c.sync))
 		default: // timestamps before the origin and half way round the 32-bit space, in order
 			c.tsWild = true
 			c.srMode = common.Pick(r, 0, 0, 1)
